@@ -192,6 +192,14 @@ func parseLine(p *parser) parseStateFn {
 	}
 }
 
+// keepAssertion emits a comment line for an ;assert comment that stands
+// between a label and its instruction, so that it is evaluated like any other
+func (p *parser) keepAssertion(comment string) {
+	if strings.HasPrefix(comment, ";assert") {
+		p.lines = append(p.lines, sourceLine{line: p.line, typ: lineComment, comment: comment})
+	}
+}
+
 // readMetadata records the name, author and strategy given in a comment
 func (p *parser) readMetadata(comment string) {
 	if strings.HasPrefix(comment, ";name") {
@@ -235,6 +243,7 @@ func parseLabels(p *parser) parseStateFn {
 	if p.nextToken.typ == tokNewline || p.nextToken.typ == tokComment {
 		if p.nextToken.typ == tokComment {
 			p.readMetadata(p.nextToken.val)
+			p.keepAssertion(p.nextToken.val)
 		}
 		p.next()
 		return parseLabels
@@ -282,6 +291,7 @@ func parseColon(p *parser) parseStateFn {
 	if p.nextToken.typ == tokNewline || p.nextToken.typ == tokComment {
 		if p.nextToken.typ == tokComment {
 			p.readMetadata(p.nextToken.val)
+			p.keepAssertion(p.nextToken.val)
 		}
 		p.next()
 		return parseColon
